@@ -1,0 +1,52 @@
+//go:build verif
+
+package logqlmetric
+
+// Contracts for the deductive verifier in /verif (govc). Comment-only: no code is added.
+
+//@ scope range_agg.go
+
+// ---- C09: range aggregations cover exactly their window
+
+//@ func newStepper
+//@   pure
+//@   ensures ret0.current == start.Add(-step) && ret0.end == end && ret0.step == step
+
+//@ func (*stepper).next
+//@   modifies s.current
+//@   ensures[advance] s.current == old(s.current).Add(s.step)
+//@   ensures[result]  ret0 == s.current && ret1 == !s.current.After(s.end)
+
+//@ func (*rangeAggIterator).clearWindow
+//@   modifies i.window[*], everything
+//@   loop 1 invariant 0 <= n && n <= rangeindex+1 && rangeindex+1 <= len(s.Data)
+//@   loop 1 body_ensures[keep-iff-in-window] (!p.Timestamp.AsTime().Before(windowStart)) == (n == head(n)+1)
+//@   loop 1 body_ensures[compact-in-order]   n == head(n)+1 ==> same(s.Data[head(n)], p)
+//@   loop 1 body_ensures[current-element]    same(p, head(s.Data[rangeindex+1]))
+
+//@ spec func offsetOf(e *logql.RangeAggregationExpr) time.Duration {
+//@   return ite(e.Range.Offset == nil, 0, e.Range.Offset.Duration)
+//@ }
+
+//@ func build
+//@   capture s  = call(sel, 0)
+//@   capture ra = call(RangeAggregation, 0)
+//@   ensures[sampled-interval-start] s_called ==> s_a1 == params.Start.Add(-old(offsetOf(s_a0))).Add(-old(s_a0.Range.Range))
+//@   ensures[sampled-interval-end]   s_called ==> s_a2 == params.End.Add(-old(offsetOf(s_a0)))
+//@   ensures[grid-unshifted]         ra_called ==> ra_a2 == params.Start && ra_a3 == params.End && ra_a4 == params.Step
+//@   ensures[same-expr]              ra_called ==> s_called && ra_a1 == s_a0 && ra_a0 == s_r0
+
+//@ iface BatchAggregator.Aggregate
+//@   pure
+
+//@ func (*rangeAggIterator).fillWindow
+//@   trusted
+//@   modifies i.window[*], i.buffered, i.entry, i.iter
+
+//@ func (*rangeAggIterator).Next
+//@   loop 0 modifies r.Samples, r.Samples[*]
+//@   capture st = call(i.stepper.next, 0)
+//@   capture fw = call(i.fillWindow, 0)
+//@   ensures[stop]         ret0 == st_r1
+//@   ensures[window]       ret0 ==> fw_called && fw_a1.Sub(fw_a0) == old(i.interval)
+//@   ensures[stamp-is-evaluation-time] ret0 ==> r.Timestamp == otelstorage.NewTimestampFromTime(st_r0)
